@@ -23,13 +23,6 @@ read from `Tables`, whose value `Generated.C06Tables.tables` is regenerated from
 -/
 namespace Mxl.C06
 
-/-! ## Values -/
-
-inductive Val where
-  | num (q : Rat)
-  | bool (b : Bool)
-deriving DecidableEq, Repr, Inhabited
-
 /-! ## Python side: syntax -/
 
 inductive UnOp where | uadd | usub | other
@@ -50,6 +43,26 @@ inductive CallTarget where
   | unresolved
 deriving DecidableEq, Repr
 
+/-- Module-level objects a function can see. -/
+inductive GVal where
+  | flt (q : Rat)                 -- a `float` global
+  | int (q : Rat)                 -- an `int` global (not found by the translator's float-only lookup)
+  | special (c : String) (q : Rat)  -- a float equal to math.pi / math.e / math.tau (KNOWN_CONSTANTS candidates)
+  | fn (tgt : CallTarget)           -- a callable member of the module namespace (under its name / dotted path)
+  | other
+deriving DecidableEq, Repr
+
+/-- one alias of a function-local `import` / `from … import …`: what the imported object is.
+`flt` / `int`: a number (`from m import K`); `objs`: a callable or a module — the bindings it creates, keyed by the
+source text of the paths the function uses (`[("hmul", .fn t)]`, `[("m", .other), ("m.hsub", .fn t), ("m.HC", .flt q)]`);
+`other`: anything else (str, bool, tuple, …). -/
+inductive ImpItem where
+  | flt (q : Rat)
+  | int (q : Rat)
+  | objs (ps : List (String × GVal))
+  | other
+deriving DecidableEq, Repr
+
 inductive PyExpr where
   | num (q : Rat)                                   -- ast.Constant int / float
   | name (n : String)                               -- ast.Name
@@ -66,6 +79,9 @@ deriving Repr
 inductive PyStmt where
   | assign (x : String) (e : PyExpr)
   | tupleAssign (xs : List String) (es : List PyExpr)      -- `a, b = e1, e2`
+  | multiAssign (xs : List String) (e : PyExpr)            -- `a = b = e` (two or more targets, all names)
+  | unpackAssign (xs : List String) (e : PyExpr)           -- `a, b = e` with `e` not a tuple display
+  | importS (items : List (String × ImpItem))              -- function-local `import m [as a]` / `from m import x [as y], …`
   | augAssign (x : String) (op : BinOp) (e : PyExpr)       -- `x += e`
   | ifs (c : PyExpr) (t e : List PyStmt)
   | ret (e : PyExpr)
@@ -74,21 +90,32 @@ inductive PyStmt where
   | unhandled                                              -- for / while / with / …: not modelled
 deriving Repr
 
-/-- Module-level objects a function can see. -/
-inductive GVal where
-  | flt (q : Rat)                 -- a `float` global
-  | int (q : Rat)                 -- an `int` global (not found by the translator's float-only lookup)
-  | special (c : String) (q : Rat)  -- a float equal to math.pi / math.e / math.tau (KNOWN_CONSTANTS candidates)
-  | fn (tgt : CallTarget)           -- a callable member of the module namespace (under its name / dotted path)
-  | other
-deriving DecidableEq, Repr
+/-! ## Values -/
 
+/-- Python values: numbers, bools, and (for names bound by a function-local import) the imported object.  An
+object is never the value of an expression (`evalExpr` has no value for a name bound to one); it is only looked
+up when a call / attribute path goes through a locally imported name. -/
+inductive Val where
+  | num (q : Rat)
+  | bool (b : Bool)
+  | obj (g : GVal)
+deriving DecidableEq, Repr, Inhabited
+
+/-- `params` = positional-only parameters followed by the ordinary ones (`args.posonlyargs + args.args`); the first
+`nPosonly` of them are the positional-only ones; `otherParams` = the signature also has `*args`, keyword-only
+parameters or `**kwargs`. -/
 structure FnDef where
   name : String
   params : List String
   body : List PyStmt
   globals : List (String × GVal)
+  nPosonly : Nat := 0
+  otherParams : Bool := false
 deriving Repr
+
+/-- `ctx.fns` / `ctx.modules`: what function-local imports bound, keyed like `globals` (a bare name for an imported
+callable, dotted paths `alias.attr` for the members of an imported module that the function uses); first binding wins -/
+abbrev Imps := List (String × GVal)
 
 abbrev Prog := List FnDef
 
@@ -152,6 +179,11 @@ structure Tables where
   branchCopies : Bool                         -- each branch of an `if` is translated against a copy of `ctx.symbols` ?
   fallThroughChecked : Bool                   -- `_check_branch`: a branch that can fall through is refused unless … ?
   testsBoolean : Bool                         -- `_handle_test`: an if / IfExp test must be a Boolean that is not a Symbol ?
+  chainAssignAll : Bool                       -- `a = b = e` binds every target (true) / only the first (false)
+  unpackRefused : Bool                        -- `a, b = e` (e not a tuple display): refused (true) / nothing bound (false)
+  importsStrict : Bool                        -- local `from m import x`: ints bound like floats, other objects refused (true) / both skipped (false)
+  importsCopied : Bool                        -- each branch of an `if` gets its own copy of `ctx.fns` / `ctx.modules` ?
+  sigStrict : Bool                            -- positional-only parameters are arguments, `*args` / keyword-only / `**kw` refused ?
 deriving Repr
 
 /-! ## Arithmetic shared by the two semantics (kept separate per side below) -/
@@ -191,11 +223,6 @@ def pyCmp : CmpOp → Rat → Rat → Option Bool
   | .eq, a, b => some (decide (a = b))
   | .ne, a, b => some (decide (a ≠ b))
   | .other, _, _ => none
-
-/-- `bool(v)` as used by `if` / conditional expressions. -/
-def truthy : Val → Bool
-  | .num q => decide (q ≠ 0)
-  | .bool b => b
 
 /-! ## sympy semantics of the operators -/
 
@@ -498,6 +525,7 @@ def lastAssigned : List PyStmt → Option String
     | some x => some x
     | none => match s with
       | .assign x _ => some x
+      | .multiAssign (x :: _) _ => some x      -- `node.targets[0]` of a chained assignment
       | _ => none
 
 /-- sequential binding of `a, b = e1, e2` targets (`ctx.symbols[target.id] = expr`) -/
@@ -563,14 +591,30 @@ def andAll : SExpr → List SExpr → SExpr
   | acc, [] => acc
   | acc, c :: cs => andAll (.and acc c) cs
 
+/-- one alias of a function-local import (`ast.Import` / `ast.ImportFrom` branch of `_handle_fn_body`) -/
+def impStep (T : Tables) : Syms × Imps → String × ImpItem → TR (Syms × Imps)
+  | (ctx, I), (n, .flt q) => .ok ((n, .num q) :: ctx, I)                 -- ctx.symbols[name] = sympy.Float(el)
+  | (ctx, I), (n, .int q) =>
+    if T.importsStrict then .ok ((n, .num q) :: ctx, I) else .ok (ctx, I)   -- unrepaired: "Skipping import"
+  | (ctx, I), (_, .objs ps) => .ok (ctx, ps ++ I)                         -- ctx.fns[name] = el / ctx.modules[name] = el
+  | (ctx, I), (_, .other) =>
+    if T.importsStrict then .error (.refused "NotImplementedError: cannot translate the imported object")
+    else .ok (ctx, I)
+
+def impAll (T : Tables) : Syms × Imps → List (String × ImpItem) → TR (Syms × Imps)
+  | s, [] => .ok s
+  | s, it :: its => do
+    let s' ← impStep T s it
+    impAll T s' its
+
 /-! ## The translator -/
 
 mutual
 
 /-- `_handle_expr` -/
-def trExpr (T : Tables) (P : Prog) : Nat → List (String × GVal) → Syms → PyExpr → TR SExpr
-  | 0, _, _, _ => .error .fuel
-  | f+1, G, ctx, e =>
+def trExpr (T : Tables) (P : Prog) : Nat → List (String × GVal) → Imps → Syms → PyExpr → TR SExpr
+  | 0, _, _, _, _ => .error .fuel
+  | f+1, G, I, ctx, e =>
     match e with
     | .num q => .ok (.num q)
     | .name n =>
@@ -582,7 +626,7 @@ def trExpr (T : Tables) (P : Prog) : Nat → List (String × GVal) → Syms → 
         | some (.special _ q) => .ok (.num q)
         | _ => .error (.raised "KeyError")
     | .attr p =>
-      match G.lookup p with
+      match (I ++ G).lookup p with       -- modules = getmembers(parent_module, ismodule) | ctx.modules
       | some (.flt q) => .ok (.num q)
       | some (.special c q) =>
         match T.knownConsts.lookup c with
@@ -590,36 +634,36 @@ def trExpr (T : Tables) (P : Prog) : Nat → List (String × GVal) → Syms → 
         | none => .ok (.num q)
       | _ => .error (.refused "attribute is not a float")
     | .un op a => do
-      let s ← trExpr T P f G ctx a
+      let s ← trExpr T P f G I ctx a
       match T.unops.lookup op with
       | none => .error (.refused "NotImplementedError: unary operator")
       | some sop => if arithOk s then .ok (.un sop s) else .error (.refused "TypeError: unary op on a relational")
     | .bin op a b => do
-      let l ← trExpr T P f G ctx a
-      let r ← trExpr T P f G ctx b
+      let l ← trExpr T P f G I ctx a
+      let r ← trExpr T P f G I ctx b
       match T.binops.lookup op with
       | none => .error (.refused "NotImplementedError: binary operator")
       | some sop =>
         if arithOk l && arithOk r then .ok (.bin sop l r)
         else .error (.refused "TypeError: arithmetic on a relational")
     | .cmp l ops rs => do
-      let left ← trExpr T P f G ctx l
-      let rights ← trArgs T P f G ctx rs
+      let left ← trExpr T P f G I ctx l
+      let rights ← trArgs T P f G I ctx rs
       let cs ← cmpChain T left ops rights
       match cs with
       | [] => .error (.raised "IndexError")
       | c :: cs => .ok (andAll c cs)
     | .ife c t e => do
-      let cond ← trExpr T P f G ctx c
+      let cond ← trExpr T P f G I ctx c
       if T.testsBoolean && !isBoolSorted cond then
         .error (.refused "NotImplementedError: only comparisons can be used as a condition")
       else do
-        let tt ← trExpr T P f G ctx t
-        let ee ← trExpr T P f G ctx e
+        let tt ← trExpr T P f G I ctx t
+        let ee ← trExpr T P f G I ctx e
         mkPiecewise [(tt, cond), (ee, .boolLit true)]
     | .call func args => do
-      let sargs ← trArgs T P f G ctx args
-      match resolveCall G func with
+      let sargs ← trArgs T P f G I ctx args
+      match resolveCall (I ++ G) func with    -- fns = getmembers(parent_module, callable) | ctx.fns
       | .unresolved => .error (.refused "py_fn is None")
       | .known key => knownCall T key sargs
       | .user g =>
@@ -631,21 +675,21 @@ def trExpr (T : Tables) (P : Prog) : Nat → List (String × GVal) → Syms → 
       .error (.refused "NotImplementedError: keyword arguments")
     | .unsupported => .error (.refused "NotImplementedError: expression type")
 
-def trArgs (T : Tables) (P : Prog) : Nat → List (String × GVal) → Syms → List PyExpr → TR (List SExpr)
-  | 0, _, _, _ => .error .fuel
-  | _+1, _, _, [] => .ok []
-  | f+1, G, ctx, a :: as => do
-    let s ← trExpr T P f G ctx a
-    let ss ← trArgs T P f G ctx as
+def trArgs (T : Tables) (P : Prog) : Nat → List (String × GVal) → Imps → Syms → List PyExpr → TR (List SExpr)
+  | 0, _, _, _, _ => .error .fuel
+  | _+1, _, _, _, [] => .ok []
+  | f+1, G, I, ctx, a :: as => do
+    let s ← trExpr T P f G I ctx a
+    let ss ← trArgs T P f G I ctx as
     pure (s :: ss)
 
 /-- the `while remaining_body:` loop of `_handle_fn_body`.  `body` is the list the function was
 called with (used by the fallback), `pieces` the Piecewise pieces so far, `rem` = `remaining_body`,
 `isElif` = the head of `rem` is an `elif` node pushed back by the previous iteration. -/
-def trLoop (T : Tables) (P : Prog) : Nat → List (String × GVal) → List PyStmt →
+def trLoop (T : Tables) (P : Prog) : Nat → List (String × GVal) → Imps → List PyStmt →
     List (SExpr × SExpr) → List PyStmt → Bool → Syms → TR (SExpr × Syms)
-  | 0, _, _, _, _, _, _ => .error .fuel
-  | f+1, G, body, pieces, rem, isElif, ctx =>
+  | 0, _, _, _, _, _, _, _ => .error .fuel
+  | f+1, G, I, body, pieces, rem, isElif, ctx =>
     match rem with
     | [] =>
       -- after the loop
@@ -660,80 +704,101 @@ def trLoop (T : Tables) (P : Prog) : Nat → List (String × GVal) → List PySt
           | none => .error (.raised "KeyError")
         | none => .error (.refused "ValueError: no return value found")
     | .ifs c t e :: rest => do
-      let cond ← trExpr T P f G ctx c
+      let cond ← trExpr T P f G I ctx c
       if T.testsBoolean && !isBoolSorted cond then
         .error (.refused "NotImplementedError: only comparisons can be used as a condition")
       else if T.fallThroughChecked && !branchOk rest t then
         .error (.refused "NotImplementedError: branch without return followed by more than `return <its last name>`")
       else do
         -- = _handle_fn_body(node.body, ctx.updated(symbols=dict(ctx.symbols)))   (a copy: ctx is kept)
-        let (ifE, ctxB) ← trLoop T P f G t [] t false ctx
+        let (ifE, ctxB) ← trLoop T P f G I t [] t false ctx
         let ctx1 := if T.branchCopies then ctx else ctxB
         let pieces1 := pieces ++ [(ifE, cond)]
         match e with
         | [] =>
           if rest.isEmpty && isElif then .error (.refused "ValueError: elif node is not in body")
-          else trLoop T P f G body pieces1 rest false ctx1
-        | [.ifs c2 t2 e2] => trLoop T P f G body pieces1 (.ifs c2 t2 e2 :: rest) true ctx1
+          else trLoop T P f G I body pieces1 rest false ctx1
+        | [.ifs c2 t2 e2] => trLoop T P f G I body pieces1 (.ifs c2 t2 e2 :: rest) true ctx1
         | _ =>
           if T.fallThroughChecked && !branchOk rest e then
             .error (.refused "NotImplementedError: branch without return followed by more than `return <its last name>`")
           else do
-            let (elseE, ctxE) ← trLoop T P f G e [] e false ctx1   -- = _handle_fn_body(node.orelse, copy of ctx)
+            let (elseE, ctxE) ← trLoop T P f G I e [] e false ctx1   -- = _handle_fn_body(node.orelse, copy of ctx)
             let r ← mkPiecewise (pieces1 ++ [(elseE, .boolLit true)])
             pure (r, if T.branchCopies then ctx1 else ctxE)
     | .ret v :: _ => do
-      let s ← trExpr T P f G ctx v
+      let s ← trExpr T P f G I ctx v
       if pieces.isEmpty then pure (s, ctx)
       else do
         let r ← mkPiecewise (pieces ++ [(s, .boolLit true)])
         pure (r, ctx)
     | .retNone :: _ => .error (.refused "ValueError: return value cannot be None")
     | .assign x v :: rest => do
-      let s ← trExpr T P f G ctx v
-      trLoop T P f G body pieces rest false ((x, s) :: ctx)
+      let s ← trExpr T P f G I ctx v
+      trLoop T P f G I body pieces rest false ((x, s) :: ctx)
     | .tupleAssign xs es :: rest =>
       if xs.length ≠ es.length then .error (.refused "ValueError: zip strict")
       else if T.tupleSimultaneous then do
-        let ss ← trArgs T P f G ctx es
-        trLoop T P f G body pieces rest false (bindAll ctx xs ss)
+        let ss ← trArgs T P f G I ctx es
+        trLoop T P f G I body pieces rest false (bindAll ctx xs ss)
       else do
-        let ctx' ← trTuple T P f G ctx xs es
-        trLoop T P f G body pieces rest false ctx'
+        let ctx' ← trTuple T P f G I ctx xs es
+        trLoop T P f G I body pieces rest false ctx'
+    | .multiAssign xs v :: rest => do
+      let s ← trExpr T P f G I ctx v
+      if T.chainAssignAll then trLoop T P f G I body pieces rest false (bindAll ctx xs (xs.map (fun _ => s)))
+      else
+        match xs with
+        | x :: _ => trLoop T P f G I body pieces rest false ((x, s) :: ctx)    -- unrepaired: `node.targets[0]` only
+        | [] => trLoop T P f G I body pieces rest false ctx
+    | .unpackAssign _ v :: rest =>
+      if T.unpackRefused then .error (.refused "NotImplementedError: unpacking of something else than a tuple display")
+      else do
+        let _ ← trExpr T P f G I ctx v          -- unrepaired: the value is translated, no target is bound
+        trLoop T P f G I body pieces rest false ctx
+    | .importS items :: rest => do
+      -- the branch contexts are copies (`ctx.branch()`), so like `ctx.symbols` the import tables only flow forward
+      let (ctx', I') ← impAll T (ctx, I) items
+      trLoop T P f G I' body pieces rest false ctx'
     | .augAssign _ _ _ :: rest =>
       if T.unknownStmtRefused then .error (.refused "NotImplementedError: statement kind")
-      else trLoop T P f G body pieces rest false ctx
+      else trLoop T P f G I body pieces rest false ctx
     | .unhandled :: rest =>
       if T.unknownStmtRefused then .error (.refused "NotImplementedError: statement kind")
-      else trLoop T P f G body pieces rest false ctx
-    | .skip :: rest => trLoop T P f G body pieces rest false ctx
+      else trLoop T P f G I body pieces rest false ctx
+    | .skip :: rest => trLoop T P f G I body pieces rest false ctx
 
 /-- `a, b = e1, e2` translated pair by pair against the *updated* context (the unrepaired code) -/
-def trTuple (T : Tables) (P : Prog) : Nat → List (String × GVal) → Syms → List String → List PyExpr → TR Syms
-  | 0, _, _, _, _ => .error .fuel
-  | f+1, G, ctx, x :: xs, e :: es => do
-    let s ← trExpr T P f G ctx e
-    trTuple T P f G ((x, s) :: ctx) xs es
-  | _+1, _, ctx, _, _ => .ok ctx
+def trTuple (T : Tables) (P : Prog) : Nat → List (String × GVal) → Imps → Syms → List String → List PyExpr → TR Syms
+  | 0, _, _, _, _, _ => .error .fuel
+  | f+1, G, I, ctx, x :: xs, e :: es => do
+    let s ← trExpr T P f G I ctx e
+    trTuple T P f G I ((x, s) :: ctx) xs es
+  | _+1, _, _, ctx, _, _ => .ok ctx
 
 /-- `fn_to_sympy(fn, origin, model_args)` -/
 def fnToSympy (T : Tables) (P : Prog) : Nat → FnDef → Option (List SExpr) → TR SExpr
   | 0, _, _ => .error .fuel
-  | f+1, d, margs => do
-    let (e, _) ← trLoop T P f d.globals d.body [] d.body false (d.params.map (fun p => (p, SExpr.sym p)))
+  | f+1, d, margs =>
+    -- `_positional_params`: `*args`, keyword-only parameters and `**kw` are refused; positional-only ones are arguments
+    if T.sigStrict && d.otherParams then .error (.refused "NotImplementedError: only positional parameters")
+    else do
+    let fnArgs := if T.sigStrict then d.params else d.params.drop d.nPosonly   -- unrepaired: `fn_def.args.args` only
+    -- Context(symbols = {name: Symbol(name)}, modules = {}, fns = {})
+    let (e, _) ← trLoop T P f d.globals [] d.body [] d.body false (fnArgs.map (fun p => (p, SExpr.sym p)))
     match margs with
     | none => pure e
     | some [] => pure e
     | some ms =>
-      if ms.length ≠ d.params.length then .error (.refused "ValueError: zip strict")
-      else pure (applySubst T (d.params.zip ms) e)
+      if ms.length ≠ fnArgs.length then .error (.refused "ValueError: zip strict")
+      else pure (applySubst T (fnArgs.zip ms) e)
 
 end
 
 /-- `_handle_fn_body(body, ctx)`: the loop started with no pieces and the whole body remaining -/
-def trBody (T : Tables) (P : Prog) (f : Nat) (G : List (String × GVal)) (body : List PyStmt) (ctx : Syms) :
+def trBody (T : Tables) (P : Prog) (f : Nat) (G : List (String × GVal)) (I : Imps) (body : List PyStmt) (ctx : Syms) :
     TR (SExpr × Syms) :=
-  trLoop T P f G body [] body false ctx
+  trLoop T P f G I body [] body false ctx
 
 /-! ## Python semantics -/
 
@@ -742,11 +807,20 @@ inductive Outcome where
   | fall (env : PyEnv)
 deriving Repr
 
+/-- the names (and dotted paths rooted at them) a function-local import makes local -/
+def impNames : List (String × ImpItem) → List String
+  | [] => []
+  | (n, .objs ps) :: rest => n :: (ps.map (·.1) ++ impNames rest)
+  | (n, _) :: rest => n :: impNames rest
+
 mutual
 def stmtAssigned : PyStmt → List String
   | .assign x _ => [x]
   | .tupleAssign xs _ => xs
   | .augAssign x _ _ => [x]
+  | .multiAssign xs _ => xs
+  | .unpackAssign xs _ => xs
+  | .importS items => impNames items
   | .ifs _ t e => bodyAssigned t ++ bodyAssigned e
   | _ => []
 def bodyAssigned : List PyStmt → List String
@@ -761,9 +835,45 @@ def setAll (env : PyEnv) : List String → List Val → PyEnv
   | x :: xs, v :: vs => setAll ((x, v) :: env) xs vs
   | _, _ => env
 
+def Val.isObj : Val → Bool
+  | .obj _ => true
+  | _ => false
+
+/-- `bool(v)` as used by `if` / conditional expressions. -/
+def truthy : Val → Bool
+  | .num q => decide (q ≠ 0)
+  | .bool b => b
+  | .obj _ => true
+
 def asNum : Val → Option Rat
   | .num q => some q
-  | .bool _ => none
+  | _ => none
+
+/-- executing one alias of a function-local import: the name (paths) become bound locals -/
+def impEnvItem (env : PyEnv) : String × ImpItem → PyEnv
+  | (n, .flt q) => (n, .num q) :: env
+  | (n, .int q) => (n, .num q) :: env
+  | (_, .objs ps) => ps.map (fun kv => (kv.1, Val.obj kv.2)) ++ env
+  | (n, .other) => (n, .obj .other) :: env
+
+def impEnv (env : PyEnv) (items : List (String × ImpItem)) : PyEnv := items.foldl impEnvItem env
+
+/-- the function object a call's function expression denotes: a path rooted at a function-local import is looked up
+among the bound locals (unbound / not a function: the call raises), anything else in the module namespace -/
+def pyResolve (G : List (String × GVal)) (L : List String) (env : PyEnv) (func : String) : CallTarget :=
+  if L.contains func then
+    match env.lookup func with
+    | some (.obj (.fn t)) => t
+    | _ => .unresolved
+  else resolveCall G func
+
+/-- the object an attribute path denotes (same rule) -/
+def pyAttr (G : List (String × GVal)) (L : List String) (env : PyEnv) (p : String) : Option GVal :=
+  if L.contains p then
+    match env.lookup p with
+    | some (.obj g) => some g
+    | _ => none
+  else G.lookup p
 
 /-- the comparison chain `prev op1 r1 op2 r2 …` with Python's short circuit; the comparators are
 expressions, evaluated only when reached -/
@@ -787,14 +897,17 @@ def evalExpr (P : Prog) : Nat → List (String × GVal) → List String → PyEn
     match e with
     | .num q => some (.num q)
     | .name n =>
-      if L.contains n then env.lookup n
+      if L.contains n then
+        match env.lookup n with
+        | some (.obj _) => none         -- a function / module object is not a value of the modelled subset
+        | r => r
       else match G.lookup n with
         | some (.flt q) => some (.num q)
         | some (.int q) => some (.num q)
         | some (.special _ q) => some (.num q)
         | _ => none
     | .attr p =>
-      match G.lookup p with
+      match pyAttr G L env p with
       | some (.flt q) => some (.num q)
       | some (.int q) => some (.num q)
       -- `math.pi`, `math.e`, `math.tau` read through an attribute denote π, e, 2π: no rational value in the model
@@ -820,9 +933,9 @@ def evalExpr (P : Prog) : Nat → List (String × GVal) → List String → PyEn
       match evalArgs P f G L env args with
       | none => none
       | some vs =>
-        -- CPython resolves the name in the local scope first: a local of that name is a number, not a function
-        if L.contains func then none else
-        match resolveCall G func with
+        -- CPython resolves the name in the local scope first: a local of that name is a number (the call raises) unless a
+        -- function-local import bound it to a function
+        match pyResolve G L env func with
         | .unresolved => none
         | .known key =>
           match pyMeaning key with
@@ -856,6 +969,12 @@ def execStmt (P : Prog) : Nat → List (String × GVal) → List String → PyEn
       else match evalArgs P f G L env es with
         | some vs => some (.fall (setAll env xs vs))
         | none => none
+    | .multiAssign xs e =>
+      match evalExpr P f G L env e with
+      | some v => some (.fall (setAll env xs (xs.map (fun _ => v))))
+      | none => none
+    | .unpackAssign _ _ => none          -- tuples are not values of the modelled subset
+    | .importS items => some (.fall (impEnv env items))
     | .augAssign x op e =>
       match env.lookup x, evalExpr P f G L env e with
       | some (.num a), some (.num b) =>
@@ -889,11 +1008,62 @@ value (falls off the end / bare return), or the arity is wrong -/
 def callFn (P : Prog) : Nat → FnDef → List Val → Option Val
   | 0, _, _ => none
   | f+1, d, vs =>
-    if vs.length ≠ d.params.length then none
+    -- `*args` / keyword-only / `**kw`: binding not modelled; arguments are numbers (bools), never function objects
+    if vs.length ≠ d.params.length || d.otherParams || vs.any Val.isObj then none
     else match execBody P f d.globals d.locals (d.params.zip vs) d.body with
       | some (.ret v) => some v
       | _ => none
 
 end
+
+/-! ## `_check_branch` read from the source: atoms of its accepting conditions and their meaning
+
+`translate/c06.py` turns the body of `_check_branch` into `Generated.checkBranchAccept` (a list of conjunctions of these
+atoms, recognised by their exact source text); `Props/C06.lean` proves that the generated condition is `branchOk`. -/
+
+inductive CBAtom where
+  | alwaysReturns      -- `_always_returns(branch)`
+  | plain              -- `bool(branch) and all(isinstance(node, ast.Assign) and len(node.targets) == 1 and isinstance(node.targets[0], ast.Name) …)`
+  | restEmpty          -- `not rest`
+  | restLen1           -- `len(rest) == 1`
+  | rest0Return        -- `isinstance(ret := rest[0], ast.Return)`
+  | retValueName       -- `isinstance(ret.value, ast.Name)`
+  | lastTargetIsRet    -- `branch[-1].targets[0].id == ret.value.id`
+deriving DecidableEq, Repr
+
+def isPlainAssign : PyStmt → Bool
+  | .assign _ _ => true
+  | _ => false
+
+def cbAtom (rest b : List PyStmt) : CBAtom → Bool
+  | .alwaysReturns => bodyReturns b
+  | .plain => !b.isEmpty && b.all isPlainAssign
+  | .restEmpty => rest.isEmpty
+  | .restLen1 => rest.length == 1
+  | .rest0Return => match rest.head? with
+    | some (.ret _) => true
+    | some .retNone => true
+    | _ => false
+  | .retValueName => match rest.head? with
+    | some (.ret (.name _)) => true
+    | _ => false
+  | .lastTargetIsRet => match b.getLast?, rest.head? with
+    | some (.assign x _), some (.ret (.name n)) => n == x      -- (string equality: symmetric)
+    | _, _ => false
+
+def checkBranchG (accept : List (List CBAtom)) (rest b : List PyStmt) : Bool :=
+  accept.any (fun conj => conj.all (cbAtom rest b))
+
+/-! ## the `ast` class a model constructor stands for (what the two dispatchers test with `isinstance`) -/
+
+def exprClass : PyExpr → String
+  | .num _ => "Constant" | .name _ => "Name" | .attr _ => "Attribute" | .un _ _ => "UnaryOp" | .bin _ _ _ => "BinOp"
+  | .cmp _ _ _ => "Compare" | .ife _ _ _ => "IfExp" | .call _ _ => "Call" | .callKw _ _ => "Call"
+  | .unsupported => "<any other class>"
+
+def stmtClass : PyStmt → String
+  | .assign _ _ => "Assign" | .tupleAssign _ _ => "Assign" | .multiAssign _ _ => "Assign" | .unpackAssign _ _ => "Assign"
+  | .augAssign _ _ _ => "AugAssign" | .ifs _ _ _ => "If" | .ret _ => "Return" | .retNone => "Return"
+  | .skip => "Pass" | .importS _ => "ImportFrom" | .unhandled => "<any other class>"
 
 end Mxl.C06
